@@ -528,6 +528,32 @@ def shrink_bytes_tail(case, tid="main"):
                 yield c
 
 
+def nested_chain_fault(rng, inp, o, p_append=0.6):
+    """one field overruns two, three or more nested regions at once (F.fault_nested_chain).  Three deep exists in responses
+    with a session area (responseSize > parameterSize > a structure TPM2B) and in user-declared nested TPM2Bs: if the
+    given input has none, a response with sessions is generated instead, three times out of four.
+    -> (inp, data, fault records) or None"""
+    from .. import faults as F
+    ch = F.enclosing_chains(o)
+    if (not ch or max(len(c) for _, c in ch) < 3) and rng.random() < 0.75:
+        for _ in range(6):
+            cc_ = rng.choice(sorted(layout().commands))
+            inp2 = gen_input(rng, ("response", cc_, rng.choice((1, 1, 2, 3)), False, False))
+            o2 = model.decode(inp2["root"], inp2["data"], cc=inp2["cc"], enc=inp2["enc"])
+            if o2.ok and F.enclosing_chains(o2, 3):
+                inp, o, ch = inp2, o2, F.enclosing_chains(o2)
+                break
+    f = F.fault_nested_chain(inp["data"], o, rng, ch)
+    if not f:
+        return None
+    d2, recs = f
+    if rng.random() < p_append:
+        fa = F.fault_append(d2, o, rng)
+        if fa:
+            return inp, fa[0], recs + [fa[1]]
+    return inp, d2, recs
+
+
 def gen_malformed(rng, i, p_wellformed=0.1, allow_random=True, huge=False):
     """one input of the C01-C06 families: well-formed, size / value / crash-point faults (single or
     multiple), history faults on streams, random bytes.  -> (inp, data, recs, family)"""
@@ -620,6 +646,10 @@ def gen_malformed(rng, i, p_wellformed=0.1, allow_random=True, huge=False):
         f = F.fault_end_at_selector(data, o, rng)
         if f:
             return inp, f[0], f[1], "end-at-selector"
+    if rng.random() < 0.05:
+        f = nested_chain_fault(rng, inp, o)
+        if f:
+            return f[0], f[1], f[2], "nested-chain"
     if rng.random() < 0.06:
         f = F.fault_nested_pair(data, o, rng)
         if f:
